@@ -28,7 +28,7 @@ fn classify(v: f64) -> Option<Option<f64>> {
 }
 
 fn one(out: &mut Out, n: usize, m: &[f64], count: &mut usize, with_bonds: &mut usize, errors: &mut usize) {
-    let syms: Vec<&str> = (0..n).map(|_| "C").collect();
+    let syms = crate::s_topology::palette_symbols(n, *count / 2);
     let mut w = Wrapper::from_atomic_symbols(&syms);
     // half of the cases start from a molecule that already has bonds (a chain set through the same interface):
     // the result must not depend on what was there before
